@@ -165,10 +165,11 @@ def run(ctx):
             ctx.fail("C13.R3", key, mm.file, c.lineno, mm.qual,
                      f"`{norm_stmt(c)}`: the mapping header must be split at most 5 times "
                      f"so that a path containing spaces stays whole")
-    item = [st for st in ast.walk(mm.node) if isinstance(st, ast.Assign)
-            and isinstance(st.value, ast.Tuple) and len(st.value.elts) >= 10]
+    # the per-mapping record: a >= 10-slot tuple literal, assigned or appended directly
+    item = [t_ for t_ in ast.walk(mm.node) if isinstance(t_, ast.Tuple) and len(t_.elts) >= 10
+            and isinstance(t_.ctx, ast.Load)]
     ctx.require(item, "memory_maps: result tuple vanished")
-    elts = item[0].value.elts
+    elts = item[0].elts
     ext = I.namedtuples.get((pm, "pmmap_ext"))
     ctx.require(ext and len(ext) == len(elts),
                 f"pmmap_ext has {len(ext or ())} fields but memory_maps builds {len(elts)}")
